@@ -31,6 +31,7 @@ type Conn struct {
 	// writeYield makes every Write a scheduling point (Pub/Sub fan-out).
 	writeYield bool
 	blockedW   int
+	wDeadline  time.Time
 }
 
 func newConn(id int, name string) *Conn {
@@ -65,6 +66,7 @@ func (c *Conn) Read(p []byte) (int, error) {
 }
 
 var errPipe = errors.New("write: broken pipe")
+var errTimeout = errors.New("write: i/o timeout")
 
 func (c *Conn) Write(p []byte) (int, error) {
 	if c.writeYield {
@@ -81,9 +83,23 @@ func (c *Conn) Write(p []byte) (int, error) {
 			return 0, errPipe
 		}
 		if c.outLimit > 0 && len(c.out) >= c.outLimit {
+			dl := c.wDeadline
+			if !dl.IsZero() && !time.Now().Before(dl) {
+				c.mu.Unlock()
+				return 0, errTimeout
+			}
 			c.blockedW++
 			c.mu.Unlock()
-			<-c.outWake
+			if dl.IsZero() {
+				<-c.outWake
+			} else {
+				tm := time.NewTimer(time.Until(dl))
+				select {
+				case <-c.outWake:
+					tm.Stop()
+				case <-tm.C:
+				}
+			}
 			c.mu.Lock()
 			c.blockedW--
 			c.mu.Unlock()
@@ -119,7 +135,12 @@ func (c *Conn) LocalAddr() net.Addr                { return simAddr("server") }
 func (c *Conn) RemoteAddr() net.Addr               { return simAddr(c.name) }
 func (c *Conn) SetDeadline(t time.Time) error      { return nil }
 func (c *Conn) SetReadDeadline(t time.Time) error  { return nil }
-func (c *Conn) SetWriteDeadline(t time.Time) error { return nil }
+func (c *Conn) SetWriteDeadline(t time.Time) error {
+	c.mu.Lock()
+	c.wDeadline = t
+	c.mu.Unlock()
+	return nil
+}
 
 // ---- harness side ----------------------------------------------------------
 
